@@ -146,3 +146,25 @@ impl AddrBook {
             .collect()
     }
 }
+
+/// C19: the block fetcher loop of a constructed `Network` (see `crate::verif::Glue`) and both
+/// ends of its own fetch queue.
+impl crate::verif::Glue {
+    /// `gossip::Network::run_block_fetcher`.
+    pub async fn gossip_run_block_fetcher(&self, ctx: &ctx::Ctx) {
+        self.0.gossip.run_block_fetcher(ctx).await
+    }
+    /// Sorted numbers currently requested (`fetch::Queue::current_blocks` of the network's queue).
+    pub fn gossip_fetch_queue_blocks(&self) -> Vec<u64> {
+        self.0.gossip.fetch_queue.current_blocks()
+    }
+    /// `fetch::Queue::accept_block` on the network's queue (what a connection does).
+    pub async fn gossip_accept_block(
+        &self,
+        ctx: &ctx::Ctx,
+        available: &mut sync::watch::Receiver<BlockStoreState>,
+    ) -> ctx::OrCanceled<BlockCall> {
+        let (n, s) = self.0.gossip.fetch_queue.accept_block(ctx, available).await?;
+        Ok(BlockCall(n, s))
+    }
+}
